@@ -135,7 +135,11 @@ def main():
             {"name": "replay", "path": "replay", "serves_properties": ["C01", "C02", "C04", "C05", "C06", "C07", "C08", "C09", "C10", "C11", "C12", "C13"], "kind_free_text": "concrete histories of known findings / fixed defects, a random-history witness search on the real pools and differential tests of the primitive models (auxiliary, never deciding)"},
         ],
         "checks": checks,
-        "notes": "See DESIGN.md. known_findings.json lists recorded defects (C07) and the fix: commits made in /repo.",
+        "notes": "See DESIGN.md (section 0 = as built). known_findings.json lists the recorded defects (C05, C06 x2, C07) and the five fix: commits made in /repo. "
+                 "Exit codes of every check: 0 = every obligation of the property discharged on the bodies extracted from the current /repo tree (KNOWN-FINDING lines do not alarm); "
+                 "1 = VIOLATION: a named obligation that the contracts of the unchanged tree discharge fails; 2 = undecided, never an alarm: lost anchor (a function, struct, field or parameter a contract is stated over is gone), "
+                 "a construct outside the extraction rules, a call no model specifies (vocabulary guard), a failure at or after a new / rewritten loop that has no loop contract of its own, a composition of contracted functions re-implemented on the primitives, solver resource limit, vacuity guard. "
+                 "tools/regress.py replays 91 seeded changes and 131 behaviour-preserving refactorings against these rules (DESIGN.md 0.6).",
         "not_applicable": na,
     }
     json.dump(m, open(os.path.join(VERIF, "MANIFEST.json"), "w"), indent=1)
